@@ -65,7 +65,9 @@ where
                 });
             }
 
-            if pushed_len == 0 && stored_len == real_stored_len {
+            // A reset leaves the in-memory index truncated but not yet flushed: the
+            // data and index regions still have to be cut back even with nothing pushed.
+            if pushed_len == 0 && stored_len == real_stored_len && !pages.has_unflushed_changes() {
                 return Ok(false);
             }
 
